@@ -566,6 +566,48 @@ func modelCyclic(l layout) bool {
 	return c
 }
 
+// modelTimeInversion reports whether an insertion sort of the layout's live blocks (file order
+// in, ascLocations comparator) leaves two disjoint blocks out of time order, i.e. a block that
+// stays behind an overlapping older block although a block further left starts later. Class
+// label only: these are the orders a repaired newKeyCursor hands to the read algorithm.
+func modelTimeInversion(l layout) bool {
+	var bs []fix.Block
+	for _, f := range l.Files {
+		live := map[int64]bool{}
+		for _, p := range f.live() {
+			live[p.T] = true
+		}
+		for _, b := range f.Blocks {
+			any := false
+			for _, p := range b {
+				any = any || live[p.T]
+			}
+			if any {
+				bs = append(bs, fix.Block{File: f.name(), Min: b[0].T, Max: b[len(b)-1].T})
+			}
+		}
+	}
+	less := func(a, b fix.Block) bool {
+		if a.Min <= b.Max && a.Max >= b.Min {
+			return a.File < b.File
+		}
+		return a.Min < b.Min
+	}
+	for i := 1; i < len(bs); i++ {
+		for j := i; j > 0 && less(bs[j], bs[j-1]); j-- {
+			bs[j], bs[j-1] = bs[j-1], bs[j]
+		}
+	}
+	for i := 0; i < len(bs); i++ {
+		for j := i + 1; j < len(bs); j++ {
+			if bs[i].Min > bs[j].Max {
+				return true
+			}
+		}
+	}
+	return false
+}
+
 // checkLayoutStrict is checkLayout without the known-finding classification.
 func checkLayoutStrict(l layout, seeks []int64) (string, string, any, error) {
 	return checkLayout(l, seeks, false, nil)
@@ -575,7 +617,7 @@ func TestPropKeyCursorMerge(t *testing.T) {
 	rec.Assume("the harness reference merge (fold files in path order, later file wins on equal timestamps, each file's tombstones remove that file's points only) is the meaning of 'newest-wins merge'")
 	rec.Assume("seek times lie within [models.MinNanoTime, models.MaxNanoTime] as every production caller guarantees; within one file a key's blocks are sorted and non-overlapping; one value type per key")
 	rec.Assume("cursor protocol as in array_cursor.gen.go/iterator.gen.go: read, then Next()+read until a read returns no values")
-	rec.Check(t, 500, 8000, func(rt *rapid.T) {
+	rec.Check(t, 500, 6000, func(rt *rapid.T) {
 		l := genLayout(rt)
 		seeks := genSeeks(rt, l, 6)
 		all, vers := l.merged()
@@ -615,6 +657,9 @@ func TestPropKeyCursorMerge(t *testing.T) {
 			rec.Class("blocks:13+,comparator-cyclic")
 		default:
 			rec.Class("blocks:13+,comparator-consistent")
+		}
+		if modelTimeInversion(l) {
+			rec.Class("order:insertion-sorted-blocks-not-in-time-order")
 		}
 		if fc.overlap3 {
 			rec.Class("overlap:>=3-files-pairwise")
